@@ -16,7 +16,7 @@ REPO = os.environ.get("VERIF_REPO", "/repo")
 CACHE = os.path.join(VERIF, ".cache")
 DRIVER_DIR = os.path.join(VERIF, "engine", "mirfacts")
 DRIVER = os.path.join(DRIVER_DIR, "target", "release", "mirfacts")
-SCHEMA = 6
+SCHEMA = 7
 
 CONFIGS = {
     # name -> cargo feature arguments
